@@ -26,6 +26,9 @@ CONTEXTS = {
     'block': '{{ const r = @; }}', 'nested-block': 'function g() {{ if (v1) {{ const r = @; return r; }} }}', 'for': 'for (let i = 0; i < 2; i++) {{ f1(@); }}', 'for-of': 'for (const x of [@]) {{ f1(x); }}',
     'while': 'while (v1) {{ v2 = @; }}', 'try': 'try {{ f1(@); }} catch (e) {{ f1(@); }} finally {{ f1(@); }}', 'switch': 'switch (v1) {{ case 1: f1(@); break; default: f1(@); }}', 'label': 'lbl: {{ f1(@); }}',
     'tpl': 'const t = `a${{@}}b`;', 'seq': 'const q = (f1(), @);', 'assign-self': 'v1 = <Foo>{{v1}}</Foo>;', 'assign-in-fn': 'function g() {{ v1 = <Foo>{{v1}}</Foo>; }}', 'assign-arrow': 'const g = () => (v1 = <Foo>{{v1}}</Foo>);',
+    'assign-param-arrow': 'const g = (p1) => p1 = <Foo>{{p1}}</Foo>;', 'assign-param-fn': 'function g(p1) {{ p1 = <Foo>{{p1}}</Foo>; return p1; }}',
+    'assign-local': 'function g() {{ let l1 = 0; l1 = <Foo>{{l1}}</Foo>; return l1; }}', 'assign-param-arrow-block': 'const g = (p1) => {{ p1 = <Foo>{{p1}}</Foo>; return p1; }};',
+    'assign-param-nested': 'const g = (p1) => () => (p1 = <Foo>{{p1}}</Foo>);', 'assign-local-block': 'function g() {{ {{ let l1 = 1; l1 = <C1>{{l1}}</C1>; }} }}',
     'iife': '(() => {{ return @; }})();', 'async-arrow': 'const g = async () => @;', 'generator': 'function* g() {{ yield @; }}', 'if-no-block': 'function g() {{ if (v1) return @; return null; }}',
     'arrow-in-default': 'function g(cb = () => @) {{ return cb; }}', 'two-fns': 'function g() {{ return @; }}\nfunction h() {{ return @; }}', 'arrow-sibling': 'const g = () => @, h = () => @;',
 }
@@ -185,6 +188,12 @@ def oracle(env):
     for u in sc.uses:
         k = u['key']
         if k[1] not in G:
+            # a user identifier (possibly copied into generated code) must stay inside the scope of its binding:
+            # the output has no free variables beyond those of the input
+            uds = [d for d in sc.decls if d['key'] == k and d['kind'] in ('param', 'let', 'const', 'var')]
+            if uds and k[1] != 0:
+                okk = any(is_prefix(d['scope'], u['path']) for d in uds)
+                obs.append(Obligation('a user variable is only referenced inside the scope of its binding (no new free variables)', okk, {'name': k[0]}))
             if k[1] == 0 and k[0] == '$event':
                 ok = any(d['key'] == k and d['kind'] == 'param' and is_prefix(d['scope'], u['path']) for d in sc.decls)
                 obs.append(Obligation('a generated listener parameter is bound by its arrow', ok, {'name': k[0]}))
